@@ -185,6 +185,11 @@ class Task:
         self.thread = None
         self.killed = False
         self.steps = 0
+        self.wake_at = None       # sleeping until this monotonic sim time
+
+
+def current_task():
+    return getattr(_tls, 'task', None)
 
 
 class Scheduler:
@@ -243,8 +248,24 @@ class Scheduler:
                     t.waiting_on = None
                 else:
                     continue
+            if t.wake_at is not None:
+                if t.killed or self.sim.clock.monotonic() >= t.wake_at:
+                    t.wake_at = None
+                else:
+                    continue
             out.append(t)
         return out
+
+    def sleep(self, dt):
+        """Called from a task: not runnable again before the simulated
+        monotonic clock has moved dt further (discrete-event time: when
+        nobody else can run, the clock jumps to the earliest wake-up)."""
+        t = getattr(_tls, 'task', None)
+        if t is None:
+            self.sim.clock.advance(max(0.0, dt))
+            return
+        t.wake_at = self.sim.clock.monotonic() + max(0.0, dt)
+        self.yield_()
 
     def pick(self, cand):
         if len(cand) == 1:
@@ -285,6 +306,17 @@ class Scheduler:
                     self.pending_preempt.remove((st, grp))
                     self.kill_group(grp)
             cand = self.runnable()
+            if not cand:
+                asleep = [t for t in self.tasks
+                          if not t.done and t.wake_at is not None
+                          and t.waiting_on is None]
+                if asleep:
+                    # nothing can run: jump the clocks to the next timer
+                    nxt = min(t.wake_at for t in asleep)
+                    self.sim.clock.advance(
+                        max(0.0, nxt - self.sim.clock.monotonic()) + 1e-9)
+                    self.sim.probe('clock_jumped_to_next_timer')
+                    cand = self.runnable()
             if not cand:
                 left = [t for t in self.tasks if not t.done]
                 if left:
